@@ -65,6 +65,12 @@ TripleStr(i, w, o) == "(in " \o Str(i) \o ", w " \o Str(w) \o ", out " \o Str(o)
 PlumbBad(t, gs) ==        \* layers whose exported input precision is not the exported output precision of their producer
     {L \in LayersOf(t) : RecL(t, L).ex_i # Rec(t, HId(t.arch, RefIn(gs, t.arch, L))).ex_o}
 
+GeomSame(t, M) ==
+    LET r == Rec(t, M)  g == Geom(t.arch, M) IN
+    r.ex_k = g.k /\ r.ex_s = g.s /\ r.ex_d = g.d /\ r.ex_pm = g.pm /\ r.ex_bias = g.bias
+\* position in the history of the i-th compared export
+NthExport(h, i) == CHOOSE j \in DOMAIN h : h[j] = "export!" /\ Cardinality({k \in 1..(j - 1) : h[k] = "export!"}) = i - 1
+
 Drift02(t, gs) ==
     LET a == t.arch IN
     IF \E L \in LayersOf(t) : ReuseSplit(gs, a, L) THEN "ok"      \* which call site's group a split module joins is not predicted
@@ -88,7 +94,8 @@ Check02(t) ==
     ELSE IF ExtraRecs(t) # {} THEN "C02.convert: a searchable module was created that is no quantisation point of the dataflow"
     ELSE IF HistBad(t) THEN "C02.call: a public call raised: " \o t.hist_err
     ELSE IF ~t.export_done THEN "trace: scenario without export"
-    ELSE IF ~t.export_ok THEN "C02.export: export() raised " \o t.export_err
+    ELSE IF ~t.export_ok \/ t.exports = <<>> \/ \E i \in DOMAIN t.exports : ~t.exports[i].ok
+         THEN "C02.export: export() raised " \o t.export_err
     ELSE IF SuBad(t) # {} THEN "C02.summary node " \o Str(Least(SuBad(t))) \o ": summary() has no usable entry"
     ELSE IF \E n \in QIds(a) : ~Rec(t, n).ex_ok
          THEN LET n == Least({x \in QIds(a) : ~Rec(t, x).ex_ok}) IN
@@ -112,8 +119,23 @@ Check02(t) ==
                        \o Str(Rec(t, p).ex_o) \o " bit) but takes the network-input quantiser (" \o Str(RecL(t, L).ex_i) \o " bit) as its input quantiser"
               ELSE "C02.plumb layer " \o Str(L) \o ": exported input precision " \o Str(RecL(t, L).ex_i)
                        \o " but the tensor it consumes is produced by node " \o Str(p) \o " with output precision " \o Str(Rec(t, p).ex_o)
+    ELSE IF \E M \in Owners(a) : ~GeomSame(t, M)
+         THEN LET M == Least({x \in Owners(a) : ~GeomSame(t, x)})  r == Rec(t, M)  g == Geom(a, M) IN
+              "C02.geometry layer " \o Str(M) \o ": exported (k " \o Str(r.ex_k) \o ", stride " \o Str(r.ex_s) \o ", dilation " \o Str(r.ex_d)
+                  \o ", padding_mode " \o r.ex_pm \o ", bias " \o Str(r.ex_bias) \o ") but the searched layer has (k " \o Str(g.k) \o ", stride "
+                  \o Str(g.s) \o ", dilation " \o Str(g.d) \o ", padding_mode " \o g.pm \o ", bias " \o Str(g.bias) \o ")"
+    ELSE IF \E i \in DOMAIN t.exports : ~t.exports[i].wcur
+         THEN LET i == Least({x \in DOMAIN t.exports : ~t.exports[x].wcur}) IN
+              "C02.snapshot: export() number " \o Str(i) \o " of the history (after " \o Str(t.exports[i].wver)
+                  \o " weight update(s)) returned layers whose weight / bias are not the current ones of the model"
+    ELSE IF \E i \in DOMAIN t.exports : ~t.exports[i].bit
+         THEN LET i == Least({x \in DOMAIN t.exports : ~t.exports[x].bit}) IN
+              "C02.bit-identical: export() number " \o Str(i) \o " of the history (after " \o Str(t.exports[i].wver)
+                  \o " weight update(s)) and the eval-mode MPS model at that moment differ (max |diff| x1e6 = " \o Str(t.exports[i].diff) \o ")"
     ELSE IF ~t.bit_identical
          THEN "C02.bit-identical: the exported model and the eval-mode MPS model differ (max |diff| x1e6 = " \o Str(t.maxdiff_e6) \o ")"
+    ELSE IF \E i \in DOMAIN t.exports : t.exports[i].wver # WeightVersion(t.hist, NthExport(t.hist, i))
+         THEN "drift:an SGD step of the history did not change the weights"
     ELSE Drift02(t, gs)
 
 (* --------------------------- C05 --------------------------------------- *)
